@@ -144,3 +144,5 @@ func selfTest() error {
 	}
 	return nil
 }
+
+func sprintf(format string, a ...interface{}) string { return fmt.Sprintf(format, a...) }
